@@ -44,6 +44,12 @@ Judge(o) ==
          \* trash-empty DAYS purged (o.purged) an entry whose .trashinfo content is o.content at time o.now
          LET d == TI!ParseDate(o.content) IN
          o.purged <=> (d # TI!NoValue /\ DT!Expired(d, o.now, o.days))
+    [] o.f = "timed" ->
+         \* the DeletionDate trash-put wrote for one argument of a run during which the clock kept moving lies between the
+         \* moment the run first touched that argument (o.lo) and the moment the argument left its place (o.hi): it is the
+         \* time of trashing of THIS entry, not of the run or of a neighbour
+         LET d == TI!ParseDate(o.content) IN
+         d # TI!NoValue /\ ~DT!Expired(d, o.lo, 0) /\ ~DT!Expired(o.hi, d, 0)
     [] o.f = "match" ->
          o.removed <=> GL!RmMatches(o.pat, o.path)
     [] o.f = "denote" ->
